@@ -20,8 +20,8 @@ ComputePatches whose attempts go through a shared, stateful, linearizable fake c
 Gosched/sleep perturbation, GOMAXPROCS 1/16, also under -race) must return the schedule-free result.
 With `patchFn` a function, confluence of the *multiset* is close to "by construction" — the content of (a) is the rest:
 the launched follow-ups depend on the delivered result (so the set of attempts is a closure, `C16_tasks_confluent`), the
-final list is only schedule-free under the two hypotheses of `C16_final_partial`, both of which fail on concrete
-inputs (`C16_final_needs_cmpeq`, `C16_patchcmp_mixed_cycle`), and the loop needs a finiteness hypothesis to terminate.
+final list is schedule-free under the one remaining hypothesis of `C16_final_partial` (strict weak order of the version
+comparison), which fails on concrete inputs (`C16_patchcmp_mixed_cycle`; the second, `CmpEqImpliesEq`, is proved since the repair), and the loop needs a finiteness hypothesis to terminate.
 
 (a) `common.ComputePatches` as a nondeterministic worklist — `C16_confluent`, `C16_final_partial`, `C16_patchcmp_order_partial`,
     `C16_terminates_partial` and the decided counterexamples to their unrestricted forms.
@@ -58,16 +58,28 @@ theorem C16_tasks_confluent {τ : Type} [DecidableEq τ] (spawn : τ → List τ
     (h : Runs spawn P ps) (h' : Runs spawn P ps') : ps.Perm ps' :=
   h.confluent P ps' h' (List.Perm.refl _)
 
+/-- **C16_compare_total** (since fix 09778cd0): `Patch.Compare` returns 0 only for identical patches — every patch, any
+version comparison.  Key 6 (per update VersionTo, VersionFrom, Transitive, Type; then the fixed and the introduced ids)
+separates whatever keys 1–5 leave tied. -/
+theorem C16_compare_total (vc : Str → Str → Int) (a b : Patch) (h : Patch.compare vc a b = 0) : a = b :=
+  compare_eq_zero_imp_eq vc a b h
+
+/-- hence `CmpEqImpliesEq`, formerly a hypothesis of the three theorems below, is a theorem of the model -/
+theorem C16_cmpeq_holds (vc : Str → Str → Int) (c : List Patch) : CmpEqImpliesEq vc c :=
+  fun a _ b _ h => compare_eq_zero_imp_eq vc a b h
+
 /-- **C16_final_partial.** The value `ComputePatches` returns (sort by `Patch.Compare`, compact) is the same under any two
-complete schedules, provided (i) the per-version comparison is a strict weak order on a set `V` containing the
-target versions of the collected patches and (ii) `CmpEqImpliesEq` holds for the collected patches. -/
+complete schedules.  The ONE remaining hypothesis: the per-version comparison of step 5 is a strict weak order on a set `V`
+containing the target versions of the collected patches.  It holds when all of them parse and the ecosystem's semantic
+comparison is a strict weak order (npm), and when none parses (relax: string order) — `C16_patchcmp_order_parsed_partial`,
+`C16_patchcmp_order_unparsed`; it is an assumption for Maven (C07: `mavenutil`'s comparison is not transitive in general) and
+fails for mixed forms (`C16_patchcmp_mixed_cycle`).  (`CmpEqImpliesEq`, the second hypothesis before the repair, is now proved.) -/
 theorem C16_final_partial (patchFn : Task → Option Patch) (grouped : Bool) (vulns : List Str)
     (V : Str → Prop) (vc : Str → Str → Int) (hvc : Cmp3 (fun x y => V x ∧ V y) vc)
     (σ σ' : List Nat) (c c' : List Patch)
     (h : exec (outCP patchFn) (spawnCP patchFn grouped) σ (initCP vulns) = some ⟨[], c⟩)
     (h' : exec (outCP patchFn) (spawnCP patchFn grouped) σ' (initCP vulns) = some ⟨[], c'⟩)
-    (hV : ∀ p ∈ c, ∀ u ∈ p.updates, V u.vto)
-    (hce : CmpEqImpliesEq vc c) :
+    (hV : ∀ p ∈ c, ∀ u ∈ p.updates, V u.vto) :
     sortCompact vc c = sortCompact vc c' := by
   have hp := C16_confluent patchFn grouped vulns σ σ' c c' h h'
   have hok := collected_ok patchFn grouped vulns σ c h
@@ -80,7 +92,7 @@ theorem C16_final_partial (patchFn : Task → Option Patch) (grouped : Bool) (vu
   · exact hp
   · intro a ha; exact ⟨hok a ha, hV a ha⟩
   · intro a b ha hb h1 h2
-    exact hce a ha b hb (cmp3_eq_zero h3 a b ⟨⟨hok a ha, hV a ha⟩, ⟨hok b hb, hV b hb⟩⟩ h1 h2)
+    exact compare_eq_zero_imp_eq vc a b (cmp3_eq_zero h3 a b ⟨⟨hok a ha, hV a ha⟩, ⟨hok b hb, hV b hb⟩⟩ h1 h2)
 
 /-- the same statement about the function value `computePatches` -/
 theorem C16_schedule_independent_partial (patchFn : Task → Option Patch) (grouped : Bool) (vulns : List Str)
@@ -88,8 +100,7 @@ theorem C16_schedule_independent_partial (patchFn : Task → Option Patch) (grou
     (σ σ' : List Nat) (r r' : List Patch)
     (h : computePatches patchFn grouped vc vulns σ = some r)
     (h' : computePatches patchFn grouped vc vulns σ' = some r')
-    (hV : ∀ t p, patchFn t = some p → ∀ u ∈ p.updates, V u.vto)
-    (hce : ∀ c, (∀ p ∈ c, ∃ t, outCP patchFn t = some p) → CmpEqImpliesEq vc c) : r = r' := by
+    (hV : ∀ t p, patchFn t = some p → ∀ u ∈ p.updates, V u.vto) : r = r' := by
   unfold computePatches at h h'
   cases he : exec (outCP patchFn) (spawnCP patchFn grouped) σ (initCP vulns) with
   | none => rw [he] at h; cases h
@@ -115,10 +126,9 @@ theorem C16_schedule_independent_partial (patchFn : Task → Option Patch) (grou
             obtain ⟨t, _, ht⟩ := List.mem_filterMap.mp hq
             exact ⟨t, ht⟩
           apply C16_final_partial patchFn grouped vulns V vc hvc σ σ' c c' he he'
-          · intro q hq u hu
-            obtain ⟨t, ht⟩ := hmem q hq
-            exact hV t q (outCP_some ht).1 u hu
-          · exact hce c hmem
+          intro q hq u hu
+          obtain ⟨t, ht⟩ := hmem q hq
+          exact hV t q (outCP_some ht).1 u hu
 
 /-- every complete schedule returns what the breadth-first closure (the executable specification the driver
 prints as `spec=`) returns -/
@@ -127,7 +137,7 @@ theorem C16_spec_partial (patchFn : Task → Option Patch) (grouped : Bool) (vul
     (σ : List Nat) (c : List Patch) (n : Nat)
     (h : exec (outCP patchFn) (spawnCP patchFn grouped) σ (initCP vulns) = some ⟨[], c⟩)
     (hf : (fifo (outCP patchFn) (spawnCP patchFn grouped) n (initCP vulns)).pending = [])
-    (hV : ∀ p ∈ c, ∀ u ∈ p.updates, V u.vto) (hce : CmpEqImpliesEq vc c) :
+    (hV : ∀ p ∈ c, ∀ u ∈ p.updates, V u.vto) :
     sortCompact vc c = sortCompact vc (fifo (outCP patchFn) (spawnCP patchFn grouped) n (initCP vulns)).collected := by
   obtain ⟨σ', hσ'⟩ := fifo_exec (outCP patchFn) (spawnCP patchFn grouped) n (initCP vulns)
   have : fifo (outCP patchFn) (spawnCP patchFn grouped) n (initCP vulns)
@@ -135,7 +145,7 @@ theorem C16_spec_partial (patchFn : Task → Option Patch) (grouped : Bool) (vul
     cases hh : fifo (outCP patchFn) (spawnCP patchFn grouped) n (initCP vulns) with
     | mk p c' => rw [hh] at hf; simp at hf; subst hf; rfl
   rw [this] at hσ'
-  exact C16_final_partial patchFn grouped vulns V vc hvc σ σ' c _ h hσ' hV hce
+  exact C16_final_partial patchFn grouped vulns V vc hvc σ σ' c _ h hσ' hV
 
 /-- **C16_patchcmp_order_partial.** `Patch.Compare` is a strict weak order — in the three-way form `slices.SortFunc`
 takes: `cmp(a,b) < 0 ↔ cmp(b,a) > 0`, and "not less" is transitive — among patches that have at least one
@@ -175,18 +185,18 @@ theorem C16_patchcmp_mixed_cycle :
 /-- with an empty patch the multiplied-out ratio of step 1 compares equal to everything and the order is cyclic:
 `a < e < b < a` (so "≥ 1 update" cannot be dropped; `ComputePatches` never collects an empty patch) -/
 theorem C16_patchcmp_needs_updates :
-    let u : Upd := ⟨bytes "a", [], bytes "2.0.0", false⟩
+    let u : Upd := ⟨bytes "a", [], bytes "2.0.0", false, []⟩
     let a : Patch := ⟨[u], [bytes "V", bytes "W", bytes "X"], [bytes "A", bytes "B", bytes "C"]⟩   -- ratio 0/1, 3 fixed
     let b : Patch := ⟨[u], [bytes "V"], []⟩                                                         -- ratio 1/1, 1 fixed
     let e : Patch := ⟨[], [bytes "V", bytes "W"], [bytes "A", bytes "B"]⟩                           -- ratio 0/0, 2 fixed
     Patch.compare demoVc a e < 0 ∧ Patch.compare demoVc e b < 0 ∧ Patch.compare demoVc b a < 0 := by decide
 
-/-- FULL-STRENGTH statement that does NOT hold: "the result is the same under every schedule" without
-`CmpEqImpliesEq`.  Two patches with the same update but different `Fixed` ids compare equal; `CompactFunc` keeps
-whichever was delivered first. -/
-theorem C16_final_needs_cmpeq :
-    computePatches demoFn true demoVc [bytes "A", bytes "B"] [0, 0] = some [one "x" "2.0.0" ["A"]] ∧
-    computePatches demoFn true demoVc [bytes "A", bytes "B"] [1, 0] = some [one "x" "2.0.0" ["B"]] := by decide
+/-- The witness of the former known finding C16/compare-equal-distinct-patches (two patches with the same update and
+different `Fixed` ids; before the repair `Compare` returned 0 for them and `CompactFunc` kept whichever was delivered first):
+both survive now, in the same order under both delivery orders. -/
+theorem C16_final_formerly_order_dependent :
+    computePatches demoFn true demoVc [bytes "A", bytes "B"] [0, 0] = some [one "x" "2.0.0" ["A"], one "x" "2.0.0" ["B"]] ∧
+    computePatches demoFn true demoVc [bytes "A", bytes "B"] [1, 0] = some [one "x" "2.0.0" ["A"], one "x" "2.0.0" ["B"]] := by decide
 
 /-! ### non-vacuity -/
 
@@ -195,26 +205,6 @@ example :
     exec (outCP okFn) (spawnCP okFn true) [1, 0, 0] (initCP [bytes "A", bytes "B"]) = some ⟨[], [okB, okA, okAC]⟩ ∧
     CmpEqImpliesEq demoVc [okA, okB, okAC] ∧ (∀ p ∈ [okA, okB, okAC], ∀ u ∈ p.updates, (parseMajor u.vto).isSome) ∧
     sortCompact demoVc [okA, okB, okAC] = [okAC, okB, okA] := by decide
-
-/-- the hypothesis `hce` of `C16_schedule_independent_partial` (CmpEqImpliesEq on every list drawn from the image of the
-strategy) is satisfiable: `okFn` only ever produces three patches, pairwise separated by `Compare` -/
-example : ∀ c : List Patch, (∀ p ∈ c, ∃ t, outCP okFn t = some p) → CmpEqImpliesEq demoVc c := by
-  have img : ∀ t p, outCP okFn t = some p → p ∈ [okA, okAC, okB] := by
-    intro t p h
-    have := (outCP_some h).1
-    unfold okFn at this
-    split at this
-    · cases this; simp [okA]
-    · split at this
-      · cases this; simp [okAC]
-      · split at this
-        · cases this; simp [okB]
-        · cases this
-  have sep : ∀ a ∈ [okA, okAC, okB], ∀ b ∈ [okA, okAC, okB], Patch.compare demoVc a b = 0 → a = b := by decide
-  intro c hc a ha b hb hab
-  obtain ⟨ta, hta⟩ := hc a ha
-  obtain ⟨tb, htb⟩ := hc b hb
-  exact sep a (img ta a hta) b (img tb b htb) hab
 
 /-- a per-version comparison satisfying the hypothesis of `C16_patchcmp_order_partial`: all versions parse -/
 example : Cmp3 (fun x y => (parseMajor x).isSome ∧ (parseMajor y).isSome) demoVc :=
